@@ -48,13 +48,18 @@ def literals():
     for body in ["0x1p3", "0x1.8p1", "0x.8p-1", "0X1.P+2", "0xa.bp3"]:
         for s in FLOAT_SUFFIXES:
             out.append((body + s, "HEX_FLOAT_CONST"))
-    chars = ["a", " ", "\"", "\\n", "\\t", "\\\\", "\\'", "\\0", "\\123", "\\x41", "\\xAB", "\\xab", "\\?", "\\x4", "é"]
+    chars = ["a", " ", "\"", "\\n", "\\t", "\\\\", "\\'", "\\0", "\\123", "\\x41", "\\xAB", "\\xab", "\\?", "\\x4", "é",
+             ".", "5", "e", "+", "-", "x", "0", "/", "*", "#", "_", "u", "L"]
     for pre, ty in (("", "CHAR_CONST"), ("L", "WCHAR_CONST"), ("u8", "U8CHAR_CONST"), ("u", "U16CHAR_CONST"), ("U", "U32CHAR_CONST")):
         for c in chars:
             out.append((pre + "'" + c + "'", ty))
     for a, b in itertools.product(chars[:8], repeat=2):
         out.append(("'" + a + b + "'", "INT_CONST_CHAR"))
     out.append(("'abcd'", "INT_CONST_CHAR"))
+    # multi-character constants that look like numbers, comments or prefixes inside the quotes
+    for body in ["5.", ".5", "..", "1.e5", "1e5", "0x", "0b1", "//", "/*", "*/", "u8", "1'", "e+5", "5.f", ".a", "a."]:
+        if "'" not in body:
+            out.append(("'" + body + "'", "INT_CONST_CHAR"))
     strs = ["", "a", "a b", "'", "\\\"", "\\n", "\\\\", "\\x41\\x42", "\\123", "a\\tb", "é", "/* no comment */", "// no"]
     for pre, ty in (("", "STRING_LITERAL"), ("L", "WSTRING_LITERAL"), ("u8", "U8STRING_LITERAL"), ("u", "U16STRING_LITERAL"), ("U", "U32STRING_LITERAL")):
         for s in strs:
